@@ -879,7 +879,8 @@ func c17Provenance(p *Prog, r *Report) {
 				return false
 			}
 			ps, ok := pc.Fun.(*ast.SelectorExpr)
-			return ok && objOf(info, ps.X) == dirObj
+			// (seen through the parameter binding of a spliced-in helper: place.try(ctx, dir, &cFile))
+			return ok && (objOf(info, ps.X) == dirObj || (objOf(info, ps.X) != nil && f.CanonObj(objOf(info, ps.X)) == dirObj))
 		})
 		okParent := len(parents) > 0
 		// within the iteration: from the loop body start to the store, a Parent assignment is passed
